@@ -1,5 +1,9 @@
-"""C19 finding: the stop task (`cylc stop <workflow>//<cycle>/<task>`) is
-forgotten by the second restart.
+"""C19 finding (REPAIRED in /repo by commit 929f888 - this script now exits 0;
+kept as a regression reproduction, mutant `revert-stop-task-fix` in
+tools/mutants_C19.json): the stop task (`cylc stop <workflow>//<cycle>/<task>`)
+was forgotten by the second restart.
+
+Before the repair:
 
 Scheduler.configure(), on a restart:
 
